@@ -341,7 +341,7 @@ class SpiSlaveHarness(Harness):
        mon: (starts, irqs, since_end) pulse counters of the current / last transfer"""
     live_queries = (("spi.slave.stuck", BUSY, 0, (), "chip select released for ever but done never returns"),)
 
-    def __init__(self, name, dw=4, half=4, skew=0, loopback=0, lengths=None, nwords=3, foreign=0):
+    def __init__(self, name, dw=4, half=4, skew=0, loopback=0, lengths=None, nwords=3, foreign=0, mingap=4):
         self.name, self.dw, self.h, self.skew, self.loopback = name, dw, half, skew, loopback
         self.foreign = foreign      # clock pulses of a transfer to ANOTHER slave on the shared clk / mosi lines (this slave's cs_n stays high)
         self.lengths = list(lengths if lengths is not None else range(0, dw + 1))
@@ -350,7 +350,7 @@ class SpiSlaveHarness(Harness):
         self.ws = [int("69" * 4, 16) & m, int("A5" * 4, 16) & m][:2] if not loopback else [0]
         self.leads = (3, 5)
         self.lag = 1
-        self.mingap = 4
+        self.mingap = mingap     # idle pad cycles between two transfers: every gap >= mingap is explored (4: the previous irq / done have been seen)
         self.wave = {}
         self.completed = 0
         self.lens = set()
@@ -390,7 +390,7 @@ class SpiSlaveHarness(Harness):
         return w
 
     def env_init(self):
-        return (None, 0, None, (0, 0, 9, 0))
+        return (None, 0, None, (0, 0, 9, 0, None))
 
     def choices(self, env):
         run, gap, res, mon = env
@@ -432,7 +432,7 @@ class SpiSlaveHarness(Harness):
     def observe(self, v, env, ch):
         i = self.i
         run0, gap, res, mon = env
-        starts, irqs, since_end, miso_r = mon
+        starts, irqs, since_end, miso_r, carry = mon
         run = self._cur(env, ch)
         st, irq, done = v[i["start"]], v[i["irq"]], v[i["done"]]
         frun = None
@@ -441,7 +441,20 @@ class SpiSlaveHarness(Harness):
             frun, run = run, None
             self.foreign_cycles = getattr(self, "foreign_cycles", 0) + 1
         if run is not None and run[4] == 0:
+            if res is not None and irqs == 0 and since_end <= 4:
+                carry = res         # short gap: the irq of the previous transfer is still inside the synchroniser
             starts, irqs, since_end = 0, 0, 0
+        if carry is not None and run is not None:
+            if irq:
+                L0, bits0 = carry
+                if v[i["length"]] != L0:
+                    return env, ("spi.slave.length", f"length = {v[i['length']]} at the irq of a transfer of {L0} clock pulses (next transfer {since_end} cycles behind)"), 0
+                if (v[i["mosi"]] & ((1 << L0) - 1)) != bits0:
+                    return env, ("spi.slave.mosi", f"mosi = {v[i['mosi']]:#x} at the irq: low {L0} bits expected {bits0:#x}"), 0
+                carry, irq = None, 0
+                self.short_gaps = getattr(self, "short_gaps", 0) + 1
+            elif run[4] >= 4:
+                return env, ("spi.slave.irq", "no irq for a transfer whose chip select was released for less than 4 cycles"), 0
         starts += st
         irqs += irq
         flags = 0
@@ -505,12 +518,15 @@ class SpiSlaveHarness(Harness):
                     self.lens.add(res[0])
             elif not done and since2 > 4:
                 return env, ("spi.slave.done", "done = 0 although no transfer ever started"), 0
-        return (run2, gap2, res2, (starts, irqs, since2, miso_r)), None, flags
+        return (run2, gap2, res2, (starts, irqs, since2, miso_r, carry)), None, flags
 
     def cover_report(self):
-        return dict(transfers_completed=self.completed, lengths=sorted(self.lens), foreign_traffic_cycles=getattr(self, "foreign_cycles", 0))
+        return dict(transfers_completed=self.completed, lengths=sorted(self.lens), foreign_traffic_cycles=getattr(self, "foreign_cycles", 0),
+                    short_gap_transfers=getattr(self, "short_gaps", 0))
 
     def vacuity(self):
         if self.foreign and not getattr(self, "foreign_cycles", 0):
             return "no foreign traffic explored"
+        if self.mingap < 4 and not getattr(self, "short_gaps", 0):
+            return "no transfer followed its predecessor within 4 cycles"
         return None if self.completed else "no transfer completed"
